@@ -293,6 +293,58 @@ def run(world, rep, tier, only=None):
         rep.ob("C15.i", site(rmv, "vacated slot cleared whenever the count goes down#%d" % i), rmv.dominated_by(n, clr),
                "memset(…, 0, sizeof(entry)) dominates `%s`" % n.text()[:30])
 
+    # ------------------------------------------------------------------ C15.j what the reader refuses the writer refuses
+    # read_xattrs_from_buffer() rejects a value longer than a constant limit with EXT2_ET_EA_BAD_VALUE_SIZE - for the
+    # whole inode: none of its attributes can be read any more, so the offending one cannot even be removed.
+    # ext2fs_xattr_set() therefore refuses, up front, a length beyond that limit (a constant no larger than the reader's).
+    rdx = ea["read_xattrs_from_buffer"]
+
+    def _limits(f, pred):
+        out = []
+        for b in f.blocks:
+            lit = f.literal(b)
+            a0 = T.strip(lit[0]) if lit else None
+            if isinstance(a0, dict) and a0.get("k") == "b" and a0.get("o") in ("<", "<=", ">", ">="):
+                for p_, q_ in ((a0["l"], a0["r"]), (a0["r"], a0["l"])):
+                    c_ = T.const(q_)
+                    if c_ is not None and c_ >= 1024 and pred(p_):
+                        out.append((c_, f.block_end(b)))
+        return out
+    rl = _limits(rdx, lambda y: "e_value_size" in T.field_names(y))
+    wl = _limits(xs, lambda y: T.path(y) == "value_len")
+    rep.floor("C15.j constant limit on e_value_size in read_xattrs_from_buffer", len(rl), 1)
+    if rl:
+        kr = min(c_ for c_, _ in rl)
+        early = [c_ for c_, n_ in wl if c_ <= kr and not any(n_ in xs.reach(xs.after(a_)) for a_ in calls_to(xs, "ext2fs_get_mem", "xattr_array_update"))]
+        rep.ob("C15.j", site(xs, "a value the reader would refuse is refused by set"), bool(early),
+               "reader's limit %d; ext2fs_xattr_set() compares value_len with %s before it allocates or updates anything" % (kr, sorted(c_ for c_, _ in wl)))
+
+    # ------------------------------------------------------------------ C15.k a value inode that could not be filled is taken back
+    # xattr_create_ea_inode() allocates an inode and writes the value into it.  When the write fails (no space) the
+    # blocks written so far and the inode on disk are given back before the error is returned; the caller only sees the
+    # error and has no inode number to clean up with.
+    cei = ea["xattr_create_ea_inode"] if "xattr_create_ea_inode" in ea else world.program("debugfs", plain=True).fn("xattr_create_ea_inode", EA)
+    wrs = calls_to(cei, "ext2fs_file_write")
+    undo = calls_to(cei, "ext2fs_punch", "ext2fs_punch2", "ext2fs_free_ext_attr", "ext2fs_block_alloc_stats2")
+    rep.floor("C15.k value write in xattr_create_ea_inode", len(wrs), 1)
+    for i, w_ in enumerate(wrs):
+        bad = []
+        for b in cei.blocks:
+            lit = cei.literal(b)
+            end_ = cei.block_end(b)
+            if not lit or T.path(lit[0]) not in ("ret", "retval", "err") or end_ not in cei.reach(cei.after(w_)):
+                continue
+            # the first test of the status after the write
+            if any(cei.literal(m.bid) and T.path(cei.literal(m.bid)[0]) == T.path(lit[0]) and m is cei.block_end(m.bid) and m is not end_
+                   and end_ in cei.reach(cei.after(m)) for m in cei.reach(cei.after(w_))):
+                continue
+            fail = [m for (m, si) in cei.succ(end_) if (si == 0) == lit[1] and m not in undo]
+            r = cei.reach(fail, avoid=undo) if fail else set()
+            if any(x.ev and x.ev["e"] == "R" for x in r) or cei.exit_node() in r:
+                bad.append(end_.line)
+        rep.ob("C15.k", site(cei, "a failed value write is undone before the error is returned#%d" % i), bool(undo) and not bad,
+               "from the failing side of the status test after ext2fs_file_write() every path to a return passes ext2fs_punch(): %s" % bad)
+
     # ------------------------------------------------------------------ C15.h a command that could not do its work says so
     # debugfs ea_set / ea_rm / ea_get end silently when all went well.  When a library call failed (the handle could
     # not be opened, the attributes not read, the value not stored) silence would read as success: on the failing
